@@ -1338,3 +1338,25 @@ def explore(body, max_paths=4000):
         if len(out) > max_paths:
             raise PathLimit('more than %d paths' % max_paths)
     return out
+
+
+def subs_zero(x, th):
+    """value of SReal x at th = 0 (th an input atom): sin atoms of angles containing th become 0, cos atoms 1"""
+    x = SReal.lift(x).simp()
+    n, d = x.n, x.d
+    subs = {th: Poly()}
+    for nm, df in CTX.defs.items():
+        if df[0] in ('sin', 'cos') and th in dict(df[1]):
+            subs[nm] = Poly() if df[0] == 'sin' else ONE
+        elif df[0] not in ('input', 'pi', 'sin', 'cos', 'fresh'):
+            for a in df[1:]:
+                if isinstance(a, SReal) and th in a.vars() and nm in (n.vars() | d.vars()):
+                    raise Unsupported('subs_zero through atom ' + nm)
+    for v, r in subs.items():
+        if v in n.vars():
+            n = n.subs(v, r)
+        if v in d.vars():
+            d = d.subs(v, r)
+    if d.is_zero():
+        raise ZeroDivisionError('subs_zero: denominator vanishes')
+    return SReal(n, d).simp()
